@@ -62,12 +62,22 @@ type ActionDef struct {
 	RawName string `json:"raw_name,omitempty"`
 }
 
+type TwinRange struct {
+	Sub  string `json:"sub"`
+	Code uint16 `json:"code"`
+	Min  int32  `json:"min"`
+	Max  int32  `json:"max"`
+}
+
 type Desc struct {
 	Mode string   `json:"mode"`
 	Exit []uint16 `json:"exit"`
 	// TwinNodes: sub-handler names for which the device has a second event node with the same name (not part of the
 	// configuration file: the configuration cannot tell the two nodes apart)
-	TwinNodes  []string     `json:"twin_nodes,omitempty"`
+	TwinNodes []string `json:"twin_nodes,omitempty"`
+	// TwinRanges: axes for which the second node of a name reports another range than the first (a range belongs to the
+	// event node, not to the name the configuration addresses it by)
+	TwinRanges []TwinRange  `json:"twin_ranges,omitempty"`
 	ID         [4]uint16    `json:"id"` // bus vendor product version
 	Uniq       string       `json:"uniq"`
 	Octave     int          `json:"octave"`
